@@ -54,3 +54,166 @@ func H_C07_int64_kernel() {
 	vAssert("noerr", err == nil)
 	vAssert("roundtrip", got == v)
 }
+
+type ZInts struct {
+	I8  int8
+	I16 int16
+	I32 int32
+	I   int
+	I64 int64
+	U8  uint8
+	U16 uint16
+	U32 uint32
+	U   uint
+	U64 uint64
+}
+
+// H_C07_kinds_field: every Go integer kind in a struct field takes every value of its type: the encode call
+// fails, or the field comes back with exactly the same value.
+func H_C07_kinds_field() {
+	v := &ZInts{}
+	switch vChoice("kind", 10) {
+	case 0:
+		v.I8 = vInt8("x")
+	case 1:
+		v.I16 = vInt16("x")
+	case 2:
+		v.I32 = vInt32("x")
+	case 3:
+		v.I = vInt("x")
+	case 4:
+		v.I64 = vInt64("x")
+	case 5:
+		v.U8 = vUint8("x")
+	case 6:
+		v.U16 = vUint16("x")
+	case 7:
+		v.U32 = vUint32("x")
+	case 8:
+		v.U = vUint("x")
+	case 9:
+		v.U64 = vUint64("x")
+	}
+	tm, nm := vExtract(v)
+	bs, err := ToBytes(v, nm)
+	if err != nil {
+		return // refused: allowed, never silently altered
+	}
+	out, err := ToObject(bs, tm)
+	vAssert("decode-noerr", err == nil)
+	g, ok := out.(*ZInts)
+	vAssert("type", ok)
+	same := vAnd(g.I8 == v.I8, vAnd(g.I16 == v.I16, vAnd(g.I32 == v.I32, vAnd(g.I == v.I, g.I64 == v.I64))))
+	same = vAnd(same, vAnd(g.U8 == v.U8, vAnd(g.U16 == v.U16, vAnd(g.U32 == v.U32, vAnd(g.U == v.U, g.U64 == v.U64)))))
+	vAssert("exact", same)
+}
+
+// H_C07_kinds_elsewhere: integers as list elements, map keys and values, and at top level.
+func H_C07_kinds_elsewhere() {
+	switch vChoice("where", 7) {
+	case 0:
+		x := vInt32("x")
+		v := []int32{1, x}
+		tm, nm := vExtract(v)
+		bs, err := ToBytes(v, nm)
+		vAssert("enc", err == nil)
+		out, err := ToObject(bs, tm)
+		g, ok := out.([]int32)
+		vAssert("list-int32", err == nil && ok && len(g) == 2 && g[1] == x)
+	case 1:
+		x := vInt64("x")
+		v := []int64{x}
+		tm, nm := vExtract(v)
+		bs, err := ToBytes(v, nm)
+		vAssert("enc", err == nil)
+		out, err := ToObject(bs, tm)
+		g, ok := out.([]int64)
+		vAssert("list-int64", err == nil && ok && len(g) == 1 && g[0] == x)
+	case 2:
+		x := vInt("x")
+		v := []int{x}
+		tm, nm := vExtract(v)
+		bs, err := ToBytes(v, nm)
+		if err != nil {
+			return
+		}
+		out, err := ToObject(bs, tm)
+		g, ok := out.([]int)
+		vAssert("list-int", err == nil && ok && len(g) == 1 && g[0] == x)
+	case 3:
+		k, x := vInt32("k"), vInt64("x")
+		v := &struct{ M map[int32]int64 }{M: map[int32]int64{k: x}}
+		_ = v
+		w := &ZIntMap{M: map[int32]int64{k: x}}
+		tm, nm := vExtract(w)
+		bs, err := ToBytes(w, nm)
+		vAssert("enc", err == nil)
+		out, err := ToObject(bs, tm)
+		g, ok := out.(*ZIntMap)
+		vAssert("map-entry", err == nil && ok && len(g.M) == 1)
+		y, has := g.M[k]
+		vAssert("map-exact", has && y == x)
+	case 4:
+		x := vUint64("x")
+		bs, err := ToBytes(x, nil)
+		if err != nil {
+			return
+		}
+		out, err := ToObject(bs, nil)
+		g, ok := out.(int64)
+		vAssert("top-uint64-bits", err == nil && ok && uint64(g) == x)
+	case 5:
+		x := vInt("x")
+		bs, err := ToBytes(x, nil)
+		if err != nil {
+			vAssert("refused-only-when-too-wide", x < -2147483648 || x > 2147483647)
+			return
+		}
+		out, err := ToObject(bs, nil)
+		g, ok := out.(int32)
+		vAssert("top-int", err == nil && ok && int(g) == x)
+	case 6:
+		x := vUint16("x")
+		v := []uint16{x}
+		tm, nm := vExtract(v)
+		bs, err := ToBytes(v, nm)
+		if err != nil {
+			return
+		}
+		out, err := ToObject(bs, tm)
+		g, ok := out.([]uint16)
+		vAssert("list-uint16", err == nil && ok && len(g) == 1 && g[0] == x)
+	}
+}
+
+type ZIntMap struct {
+	M map[int32]int64
+}
+
+// H_C07_tag_partition: no tag octet is claimed by two different scalar classes of the decoder's dispatch.
+func H_C07_tag_partition() {
+	t := vUint8("tag")
+	n := 0
+	if intTag(t) {
+		n++
+	}
+	if longTag(t) && t != _long4ByteStartTag {
+		n++
+	}
+	if doubleTag(t) && t != _long4ByteStartTag {
+		n++
+	}
+	if stringTag(t) {
+		n++
+	}
+	if dateTag(t) {
+		n++
+	}
+	if binaryTag(t) {
+		n++
+	}
+	if t == _boolTrueTag || t == _boolFalseTag || t == _nilTag {
+		n++
+	}
+	vAssert("at-most-one-class", n <= 1)
+}
